@@ -166,7 +166,7 @@ func init() {
 			{Rule: "version-flow", What: "uses", Min: 3},
 		},
 		Run: func(c *Ctx) {
-			c.Fixture("mini", "order-domain", false, func(p *load.Program, tb *kinds.Table) *report.RuleResult {
+			c.Fixture("mini", "order-domain", true, func(p *load.Program, tb *kinds.Table) *report.RuleResult {
 				r := small.OrderDomainIn(p, "pkg/version")
 				r.Merge(small.OrderDomainIn(p, "pkg/badversion"), "bad:")
 				return r
@@ -177,7 +177,7 @@ func init() {
 				return r
 			})
 			c.Fixture("mini", "version-flow", false, func(p *load.Program, tb *kinds.Table) *report.RuleResult { return small.VersionFlow(p) })
-			if p, _, ok := c.RepoProgram(false); ok {
+			if p, _, ok := c.RepoProgram(true); ok {
 				c.Add(small.OrderDomain(p))
 				c.Add(small.DispatchShape(p))
 				c.Add(small.VersionFlow(p))
